@@ -132,10 +132,21 @@ def trimEnd(s, args):
     return es_trim(s, "end")
 
 
+# 6.1.4: an implementation may bound string lengths; exceeding its bound is a RangeError.  The bound is the
+# engine's own constant (read from the real module: any value is accepted, the contract only fixes the behaviour
+# on both sides of it)
+try:
+    from microjs.vm import MAX_STRING_LENGTH as STRING_LIMIT
+except Exception:      # noqa
+    STRING_LIMIT = 2 ** 30
+
+
 def repeat(s, args):                                    # 22.1.3.18
     n = ToIntegerOrInfinity(arg(args, 0))
     if n < 0 or n == INF:
         raise RangeError_("Invalid count value")
+    if len(s) * n > STRING_LIMIT:
+        raise RangeError_("Invalid string length")
     return s * n
 
 
